@@ -29,6 +29,7 @@
 #include <fcntl.h>
 #include <pwd.h>
 #include <signal.h>
+#include <poll.h>
 #include <stdarg.h>
 #include <stdint.h>
 #include <stdio.h>
@@ -668,8 +669,24 @@ int select(int nfds, fd_set *rd, fd_set *wr, fd_set *ex, struct timeval *tv)
     ev_begin(&e, "select"); ev_int(&e, "T", tv ? (long long) tv->tv_sec : -1);
     ev_fdset(&e, "rd", nfds, rd); ev_fdset(&e, "wr", nfds, wr);
     ev_raw(&e, ",\"ph\":\"enter\"");
-    { int save = logfd; if (!has(trace, 's')) logfd = -1; ev_emit(&e, 1); logfd = save; }
-    gr = gate_wait(line, sizeof line, 1);
+    {
+      /* "sleep" until the controller answers, atomically with respect to signals: they are blocked
+         while the enter message is sent and only delivered inside ppoll(), so a signal sent after
+         the controller saw this message always ends the wait with EINTR, as the real select would */
+      sigset_t all, old; int intr = 0;
+      sigfillset(&all); sigprocmask(SIG_BLOCK, &all, &old);
+      { int save = logfd; if (!has(trace, 's')) logfd = -1; ev_emit(&e, 1); logfd = save; }
+      for (;;) {
+        struct pollfd pf; int pr;
+        pf.fd = gatefd; pf.events = POLLIN; pf.revents = 0;
+        pr = ppoll(&pf, 1, 0, &old);
+        if (pr < 0 && errno == EINTR) { intr = 1; break; }
+        if (pr > 0) break;
+        if (pr < 0) break;
+      }
+      sigprocmask(SIG_SETMASK, &old, 0);
+      gr = intr ? -1 : gate_wait(line, sizeof line, 0);
+    }
     if (gr == -2) { NEED(_exit); r__exit(97); }
     if (gr == -1) {
       /* a signal arrived while "sleeping": exactly what the real call reports */
